@@ -41,6 +41,9 @@ func WorkerMain(mode string) int {
 	if mode == "race" {
 		return raceWorker(repo)
 	}
+	if mode == "probe" {
+		return probeWorker(repo)
+	}
 	in := bufio.NewReaderSize(os.Stdin, 1<<20)
 	out := bufio.NewWriter(os.Stdout)
 	enc := json.NewEncoder(out)
@@ -240,6 +243,14 @@ func (p *freshPool) wait(base []hashes) {
 					Reason: "the traces differ only by the order of the anchors inside a page (" + detail + ")", Key: "anchor-order", Seed: d.Seed})
 				continue
 			}
+			p.rn.mu.Lock()
+			oof := p.rn.outOfFlowOnly(d)
+			p.rn.mu.Unlock()
+			if oof {
+				out.Add(res.Finding{Kind: "judge", Op: "judge:fresh-process", Input: d.HTML, Impl: g.canon, Model: base[i].canon,
+					Reason: "traces differ (" + detail + "); stable once the floats / absolutely positioned boxes are put in flow", Key: "out-of-flow-order", Seed: d.Seed})
+				continue
+			}
 			// re-render here for the reference text; the worker's text if it was fetched, else from a new worker
 			ref := renderTrace(d.HTML, nil, p.rn.repo)
 			got := p.tr[i][k]
@@ -281,4 +292,40 @@ func (p *freshPool) oneShot(d Doc) *Trace {
 		return nil
 	}
 	return a2.Trace
+}
+
+// probeWorker: debugging / confirmation aid.  WRH_C15_WORKER=probe wrh < doc.html renders the
+// document WRH_C15_K times (default 20) and prints the distinct traces' hashes and the first
+// differing call between the first trace and every other distinct one.
+func probeWorker(repo string) int {
+	src, _ := io.ReadAll(os.Stdin)
+	k := 20
+	fmt.Sscan(os.Getenv("WRH_C15_K"), &k)
+	var first *Trace
+	seen := map[string]int{}
+	seenCanon := map[string]int{}
+	for i := 0; i < k; i++ {
+		t := renderTrace(string(src), nil, repo)
+		if t.Crash != "" {
+			fmt.Println("crash:", t.Crash)
+			return 1
+		}
+		h := t.hashes()
+		seen[h.raw]++
+		seenCanon[h.canon]++
+		if first == nil {
+			first = &t
+			if os.Getenv("WRH_C15_DUMP") != "" {
+				fmt.Println(t.Raw)
+			}
+		} else if seenCanon[h.canon] == 1 {
+			j, la, lb, _ := firstDiff(first.Canon, t.Canon)
+			fmt.Printf("render %d differs from render 0 at call #%d:\n  %s\n  %s\n", i, j, la, lb)
+		} else if seen[h.raw] == 1 {
+			j, la, lb, _ := firstDiff(first.Raw, t.Raw)
+			fmt.Printf("render %d differs (anchor order only) from render 0 at call #%d:\n  %s\n  %s\n", i, j, la, lb)
+		}
+	}
+	fmt.Printf("renders=%d distinct-raw=%d distinct-canon=%d pages=%d\n", k, len(seen), len(seenCanon), first.Pages)
+	return 0
 }
